@@ -770,3 +770,16 @@ Example C06_exec_concrete :
   c06_xdispatch_case 2 [0] [10; 11] [XFallback false; XFallback true; XFinish]
     false [0] [(10, 0, false); (11, 0, true)] [Some (11, 2); Some (11, 2); Some (11, 2)] [(11, 2)] (Some [11]) = 0.
 Proof. vm_compute. repeat split; reflexivity. Qed.
+
+(* ---------------- files written by jobs (Model/RankWrites.v) ---------------- *)
+From Verif Require RankWrites RankWritesP.
+(* whatever rank runs which job, every job's file is written, as in the single-process run ... *)
+Theorem C06_job_files_written_on_any_rank : forall (assign : nat -> nat) (tasks : list nat),
+  RankWrites.written RankWrites.unguarded assign tasks = tasks.
+Proof. exact RankWritesP.unguarded_writes_all. Qed.
+Print Assumptions C06_job_files_written_on_any_rank.
+(* ... a writer guarded by "on the root rank only" writes none of the files of jobs that run on worker ranks *)
+Theorem C06_root_only_writer_refuted : forall (assign : nat -> nat) (tasks : list nat),
+  (forall k, In k tasks -> assign k <> 0%nat) -> RankWrites.written RankWrites.root_only assign tasks = nil.
+Proof. exact RankWritesP.root_only_writes_nothing_on_workers. Qed.
+Print Assumptions C06_root_only_writer_refuted.
